@@ -115,6 +115,23 @@ class Inter:
                             st.append(c)
         return seen
 
+    def body_of_call(self, callterm):
+        """the in-crate body a ('call', path, args, site) term dispatches to (resolved through its site)"""
+        path, site = callterm[1], callterm[3]
+        if not isinstance(path, str):
+            return None
+        if site:
+            sb = self.facts.body(site[0])
+            if sb is not None:
+                t = sb.blocks[site[1]].term
+                if t.kind == "call" and (t.callee() == path or short(t.callee()) == path):
+                    r = t.resolved()
+                    if r:
+                        rb = self.facts.body(r)
+                        if rb is not None:
+                            return rb
+        return self.facts.body(path)
+
     # ------------------------------------------------------------ return cases
     def code_body(self, body):
         """for `async fn`/async_trait wrappers: the coroutine holding the code"""
@@ -199,21 +216,18 @@ class Inter:
         return ids
 
     # ------------------------------------------------------------ inlining of returned values
-    def inline_ret(self, t, depth=3, polarity=None):
-        """replace (awaited) calls to in-crate functions by the phi of their returned terms"""
+    def inline_ret(self, t, depth=3, polarity=None, pred=None):
+        """replace (awaited) calls to in-crate functions by the phi of their returned terms, recursively"""
         if depth <= 0 or not isinstance(t, tuple) or not t:
             return t
-        c = call_of(t) if t[0] in ("call", "await") else None
-        if c is not None:
-            path, args, site = c
-            body = self.facts.body(path)
-            if body is None and site is not None:
-                # resolved instance may differ from the nominal path
-                sb = self.facts.body(site[0])
-                if sb is not None:
-                    r = sb.blocks[site[1]].term.resolved()
-                    if r:
-                        body = self.facts.body(r)
+        k = t[0]
+        if k in ("str", "char", "int", "bytes", "const", "arg", "rec", "undef", "unknown", "upvar", "env", "resume", "fnitem"):
+            return t
+        if k == "call" and isinstance(t[1], str):
+            args = tuple(self.inline_ret(a, depth, polarity, pred) for a in t[2])
+            body = self.body_of_call(t)
+            if body is not None and pred is not None and not pred(body):
+                body = None
             if body is not None:
                 cases = self.ret_cases(body)
                 if cases:
@@ -222,9 +236,35 @@ class Inter:
                     for ct, _, _ in cases:
                         if polarity and self.case_polarity(ct) not in (polarity, "unknown"):
                             continue
-                        parts.append(self.inline_ret(self.subst(ct, ids, args), depth - 1))
+                        parts.append(self.inline_ret(self.subst(ct, ids, args), depth - 1, polarity, pred))
                     if parts:
                         return _phi(parts)
+            return ("call", t[1], args, t[3])
+        if k in ("okval", "errval", "await"):
+            inner = self.inline_ret(t[1], depth, polarity, pred)
+            # okval of an inlined Ok(..) aggregate collapses
+            if k == "okval":
+                outs = []
+                for a in (inner[1] if inner[0] == "phi" else (inner,)):
+                    if a[0] == "agg" and a[2] in ("Ok", "Some") and a[3]:
+                        outs.append(a[3][0][1])
+                    elif a[0] == "agg" and a[2] in ("Err", "None"):
+                        continue
+                    elif a[0] == "call" and a[1] == FROM_RESIDUAL:
+                        continue
+                    else:
+                        outs.append(("okval", a))
+                if outs:
+                    return _phi(outs)
+            return (k, inner)
+        if k == "phi":
+            return _phi([self.inline_ret(x, depth, polarity, pred) for x in t[1]])
+        if k == "agg":
+            return ("agg", t[1], t[2], tuple((f, self.inline_ret(v, depth, polarity, pred)) for f, v in t[3]))
+        if k in ("field",):
+            return ("field", self.inline_ret(t[1], depth, polarity, pred), t[2])
+        if k in ("tuple", "array"):
+            return (k, tuple(self.inline_ret(x, depth, polarity, pred) for x in t[1]))
         return t
 
     # ------------------------------------------------------------ guard expansion
@@ -242,7 +282,7 @@ class Inter:
             if c is None:
                 continue
             path, args, site = c
-            body = self.facts.body(path)
+            body = self.body_of_call(("call", path, args, site))
             if body is None:
                 continue
             cases = self.ret_cases(body)
